@@ -206,3 +206,4 @@ Proof.
   - destruct (nleb N lo hi); [|discriminate]. intros H; injection H as <- <-. exists g0. split; reflexivity.
   - intros H; injection H as <- <-. exists g0. split; reflexivity.
 Qed.
+
